@@ -9,7 +9,7 @@ RULE = ('pairs of compatible configurations (IKE ENCR key length x INTEG x PRF x
         'derives from the wire (nonces, KE, SPIs) and the tapped DH private values: direction keys (initiator-to-responder keys first), '
         'algorithms, key lengths, source address, mode, selectors; (2) every IKE keyring equals the reference and is used in the right '
         'direction; (3) after every completed negotiation both model SADs hold the same (daddr,proto,SPI) keys and each pair is equal '
-        'field by field except lifetimes. A second family runs CROSSING exchanges (both sides trigger new/rekey CHILD_SAs, with PFS, and IKE rekeys while the peer\'s request is in flight, random delivery order) under the same monitors; a third family completes its negotiations under loss / duplication / retransmission, a fourth runs a hub daemon with two or three peers at once. distinct = (configuration signature, negotiation kind).')
+        'field by field except lifetimes. A second family runs CROSSING exchanges (both sides trigger new/rekey CHILD_SAs, with PFS, and IKE rekeys while the peer\'s request is in flight, random delivery order) under the same monitors; a third family completes its negotiations under loss / duplication / retransmission, a fourth runs a hub daemon with two or three peers at once; a fifth lets an independent responder answer with its CHILD_SA transforms in every order (the installed keys must follow RFC 7296 2.17, not the order on the wire); a sixth refuses one NEWSA at one side and compares the SADs afterwards. distinct = (configuration signature, negotiation kind).')
 ASSUMPTIONS = ['honest peers, FIFO lossless delivery (losses are C09/C10/C13 territory)',
                'lifetimes are excluded from the mirror comparison (each side adds its own jitter by design)',
                'reference: vf/ref/ikecrypto.py + groups.py (hashlib/hmac/python ints); DH private values are read from the repository objects, the shared secret is recomputed']
@@ -139,7 +139,108 @@ def run_hub(ck, w, seed):
     ck.nontrivial(('hub', repr(sim.case['actions'])))
 
 
+def run_unusual_peer(ck, w, seed):
+    """An independent responder whose answers are legal but not shaped like pyikev2's own: the transforms of its CHILD_SA choice in every order (INTEG before
+    ENCR, ESN first ...). The SAs the real initiator installs must carry the RFC 7296 2.17 keys: KEYMAT is cut encryption key first, then integrity key,
+    initiator-to-responder first, whatever the order on the wire."""
+    import itertools
+    from vf.ref import ikecrypto, party
+    from vf.checks import c02
+    rng = ck.rng('unusual', w)
+    esp = w % 4 != 3
+    enc_bits = (128, 256)[w % 2]
+    integ = (('sha1', 2), ('sha256', 12), ('sha512', 14))[w % 3]
+    kw = dict(child_a={'encr': ['aes%d' % enc_bits], 'integ': [integ[0]], 'dh': []}, ipsec_proto='esp' if esp else 'ah', mode='transport' if w % 2 else 'tunnel')
+    if kw['mode'] == 'tunnel':
+        kw.update(a_subnet='10.1.0.0/24', b_subnet='10.2.0.0/24')
+    sim, a, b = S.make_pair(seed + w, **kw)
+    sim.case = {'family': 'unusual-peer', 'conf': kw}
+    sim.acquire(a, 0)
+    p = party.RefParty(S.B4, S.A4, rng)
+    sim.inject(a, S.B4, S.A4, p.respond_init(sim.net.pop(0).data))
+    areq = sim.net.pop(0).data
+    base = ([{'type': 1, 'id': 12, 'keylen': enc_bits}] if esp else []) + [{'type': 3, 'id': integ[1], 'keylen': None}, {'type': 5, 'id': 0, 'keylen': None}]
+    perms = list(itertools.permutations(base))
+    order = list(perms[(w // 12) % len(perms)])
+    sim.case['transform_order_in_the_answer'] = [t['type'] for t in order]
+    n0 = len(a.kernel.requests)
+    sim.inject(a, S.B4, S.A4, p.respond_auth(areq, c02.ID_B[0], c02.ID_B[1], 2, p.auth_psk(c02.PSK_B, *c02.ID_B), force_child=order))
+    new = [r for r in a.kernel.requests[n0:] if r['msg'] and r['msg']['name'] == 'NEWSA']
+    ck.count('unusual_peer.runs')
+    ck.seen('unusual_peer.orders', (esp, tuple(t['type'] for t in order)))
+    ck.nontrivial(('unusual-peer', esp, enc_bits, integ[0], tuple(t['type'] for t in order)))
+    if len(new) != 2:
+        ck.violation('legal-answer-with-the-transforms-in-another-order-not-installed', {'order': sim.case['transform_order_in_the_answer'], 'newsa': len(new)}, sim.case)
+        return
+    want = ikecrypto.child_keys(p.suite['prf'], p.keys['sk_d'], p.ni, p.nr, enc_bits // 8 if esp else 0, integ[1])
+    for r in new:
+        sa_, attrs = r['msg']['sa'], r['msg']['attrs']
+        outbound = sa_['saddr'] == S.A4           # A is the exchange initiator: its outbound SA uses the initiator-to-responder keys
+        auth = attrs.get(1)
+        crypt = attrs.get(2)
+        ck.count('unusual_peer.newsa_checked')
+        exp_a, exp_e = (want['sk_ai'], want['sk_ei']) if outbound else (want['sk_ar'], want['sk_er'])
+        got_a = bytes(auth['key']) if auth else None
+        got_e = bytes(crypt['key']) if crypt else None
+        if got_a != exp_a or (esp and got_e != exp_e) or (not esp and crypt is not None):
+            ck.violation('kernel-sa-keys-differ-from-rfc7296-2.17-when-the-peer-lists-its-transforms-in-another-order',
+                         {'order': sim.case['transform_order_in_the_answer'], 'direction': 'out' if outbound else 'in', 'auth_key_matches': got_a == exp_a, 'enc_key_matches': got_e == exp_e}, sim.case)
+            return
+
+
+def run_refusal(ck, w, seed):
+    """One NEWSA is refused by the kernel of one side during a negotiation: afterwards the two SADs still mirror each other (no SA that only one end holds)."""
+    rng = ck.rng('refusal', w)
+    kw = dict(dpd=600, lifetime=3600, ipsec_proto='ah' if w % 5 == 4 else 'esp')
+    sc = walk.Scenario(seed + w, [], kw, handshake=w % 3 != 0)
+    sim = sc.sim
+    who = sc.ep('AB'[w % 2])
+    k = (w // 2) % 4
+    sim.case.update({'family': 'kernel-refusal', 'endpoint': who.name, 'newsa_index': k})
+    # the k-th NEWSA from now on at that endpoint is refused
+    counter = {'n': 0}
+
+    def maybe(kernel, rec):
+        pass
+    base = len(who.kernel.requests)
+    who.kernel.fault_types_once = None
+    orig_handle = who.kernel.handle
+
+    def handle(raw):
+        from vf.ref import xfrmdec
+        try:
+            m = xfrmdec.decode_request(bytes(raw))
+        except Exception:
+            m = None
+        if m and m['name'] == 'NEWSA':
+            if counter['n'] == k:
+                who.kernel.fault_plan[len(who.kernel.requests)] = ('errno', -22)
+            counter['n'] += 1
+        return orig_handle(raw)
+    who.kernel.handle = handle
+    if not sc.ok and w % 3 != 0:
+        return
+    sim.acquire(sc.a, 0, sport=7600 + w)
+    sim.drain()
+    for act in ('expire_soft', 'acquire'):
+        sc.trigger('AB'[(w + 1) % 2], act)
+        sim.drain()
+    sc.settle()
+    who.kernel.handle = orig_handle
+    ck.count('refusal.runs')
+    if counter['n'] > k:
+        ck.count('refusal.runs_with_a_refused_newsa')
+    ck.nontrivial(('refusal', who.name, k, w % 3 != 0))
+    shadow.mirror_check(ck, sim, sc.a, sc.b, prefix='refusal:', require_equal_sets=True)
+
+
 def run(ck):
+    for w in range(72 if not ck.thorough() else 1440):
+        if ck.mine(w):
+            run_unusual_peer(ck, w, ck.seed * 1000003 + 7703)
+    for w in range(48 if not ck.thorough() else 960):
+        if ck.mine(w):
+            run_refusal(ck, w, ck.seed * 1000003 + 8807)
     nx = 160 if not ck.thorough() else 20000
     for w in range(nx):
         if ck.mine(w):
@@ -172,6 +273,8 @@ def verdict(ck):
     ck.floor('runs with COOKIE / INVALID_KE retry', c['shadow.init.notify_only_responses'], 20)
     ck.floor('PFS child derivations', sum(v for k, v in c.items() if k.startswith('shadow.child.derived') and '.pfs.' in k), 40)
     ck.floor('AH derivations', sum(v for k, v in c.items() if k.startswith('shadow.child.derived') and k.endswith('.ah')), 20)
+    ck.floor('NEWSA requests checked after answers with the transforms in another order', c['unusual_peer.newsa_checked'], 100)
+    ck.floor('runs in which the kernel of one side refused a NEWSA, SADs compared afterwards', c['refusal.runs_with_a_refused_newsa'], 30)
     ck.floor('crossing-exchange walks', c['crossing.walks'], 100)
     ck.floor('lossy walks', c['lossy.walks'], 40)
     ck.floor('hub walks (several IKE_SAs per daemon)', c['hub.walks'], 25)
